@@ -610,8 +610,12 @@ class iindex(dict):
             # of which rows have explicitly obtained an uncommon value.
             common_has_been_written = False
             common_count = numpy.full(numrows, numcols, dtype=fit_dtype(numcols))
-            for rowids in gathered.get(default, []):
-                common_count[rowids] -= 1
+            for coord, rowid_lists in gathered.items():
+                # Neither the default nor values absent from the precedence
+                # are ever written later, so count them right away.
+                if coord == default or coord not in precedence:
+                    for rowids in rowid_lists:
+                        common_count[rowids] -= 1
         for coord in reversed(precedence[:-1]):
             if coord == new_common:
                 # Rows which already have ALL values at a lower precedence
